@@ -9,6 +9,7 @@ var units = map[string]common.UnitFunc{
 	"c04orch":     unitC04orch,
 	"c04live":     unitC04live,
 	"c04tiny":     unitC04tiny,
+	"c04twice":    unitC04twice,
 	"c03conc":     unitC03conc,
 	"byzorch":     unitByzOrch,
 	"c14ctl":      unitC14ctl,
